@@ -9,5 +9,5 @@ for p in "$@"; do
   out=$(./check "$p" 2>&1 | grep -E "^(VIOLATION|OK|KNOWN)|cannot run" | head -3)
   echo "$p: $out"
 done
-git -C /repo checkout -- . 
+git -C /repo checkout -- . ; git -C /repo clean -fdq
 git -C /repo status --short | head -3
